@@ -149,6 +149,17 @@ BREAK = [
     ("none-check-removed", ["C16"], P, "            # Skip the following as no variable has a value\n            return wc_value\n", "            # Skip the following as no variable has a value\n            wc_value = 0.\n", "R-NONE"),
     ("step-open-dispatch", ["C16", "C08"], "PEPit/primitive_steps/inexact_gradient_step.py", "        raise ValueError(\"inexact_gradient_step supports only", "        print(\"inexact_gradient_step supports only", None),
     ("dual-accessor-returns-zero", ["C16"], "PEPit/psd_matrix.py", 'raise ValueError("The PEP must be solved to evaluate PSDMatrix dual variables!")', "return 0.", "R-UNSOLVED"),
+    # ---- post-solve assignment and main variables as programs
+    ("cholesky-untransposed-fast-path", ["C02"], P, "        points_values = np.linalg.qr((np.sqrt(eig_val) * eig_vec).T, mode='r')", "        if np.min(eig_val) > np.max(eig_val) / 1e3:\n            points_values = np.linalg.cholesky(G_value)\n        else:\n            points_values = np.linalg.qr((np.sqrt(eig_val) * eig_vec).T, mode='r')", "R-LEAFREG"),
+    ("factor-not-transposed", ["C02"], P, "(np.sqrt(eig_val) * eig_vec).T, mode='r')", "(np.sqrt(eig_val) * eig_vec), mode='r')", "R-LEAFREG"),
+    ("lmi-loop-leaf-test-negated", ["C02"], P, "                    if expression.get_is_leaf():\n                        expression._value = F_value[expression.counter]",
+     "                    if not expression.get_is_leaf():\n                        expression._value = F_value[expression.counter]", "R-LEAFREG"),
+    ("gram-constraint-shifted", ["C05", "C02"], CV, "self._list_of_solver_constraints.append(self.G >> 0)", "self._list_of_solver_constraints.append(self.G >> 1)", "R-MAINVARS"),
+    ("mosek-assert-inverted", ["C11"], MK, "assert self.task.getmaxnumvar() == Expression.counter + 1", "assert self.task.getmaxnumvar() != Expression.counter + 1", "R-MOSEKROW"),
+    ("mosek-first-value-not-free", ["C11"], MK, "        for i in range(Expression.counter):\n            self.task.putvarbound(i, mosek.boundkey.fr", "        for i in range(1, Expression.counter):\n            self.task.putvarbound(i, mosek.boundkey.fr", "R-MOSEKROW"),
+    ("leaf-function-weight-zero", ["C07"], F, "            self.decomposition_dict = {self: 1}\n            self.counter = Function.counter", "            self.decomposition_dict = {self: 0}\n            self.counter = Function.counter", "R-LEAFREG"),
+    ("logdet-prefix-length", ["C14"], P, "niter = int(dimension_reduction_heuristic[6:])", "niter = int(dimension_reduction_heuristic[7:])", "R-SOLVEPROG"),
+    ("strict-comparison-reflected", ["C06"], EX, '        warnings.warn("Strict constraints will lead to the same solution as under soft constraints")\n        return self.__ge__(other=other)', "        return other.__lt__(self)", "R-OPSEM"),
     # ---- tables (C17)
     ("table-columns-swapped", ["C17"], F, "df = pd.DataFrame(table_of_constraints, columns=point_names_2, index=point_names_1)", "df = pd.DataFrame(table_of_constraints, columns=point_names_1, index=point_names_2)", "R-ALIGN"),
     ("skip-cell-missing", ["C17"], F, "                    row_of_constraints.append(0)\n", "                    pass\n", "R-ALIGN"),
@@ -158,6 +169,9 @@ BREAK = [
 
 # behaviour-preserving edits: (id, file, old, new) -- every check must stay silent
 BENIGN = [
+    ("cholesky-transposed-fast-path", P, "        points_values = np.linalg.qr((np.sqrt(eig_val) * eig_vec).T, mode='r')", "        if np.min(eig_val) > np.max(eig_val) / 1e3:\n            points_values = np.linalg.cholesky(G_value).T\n        else:\n            points_values = np.linalg.qr((np.sqrt(eig_val) * eig_vec).T, mode='r')"),
+    ("factor-via-diag", P, "np.linalg.qr((np.sqrt(eig_val) * eig_vec).T, mode='r')", "np.linalg.qr(np.diag(np.sqrt(eig_val)) @ eig_vec.T, mode='r')"),
+    ("clip-always", P, "        if np.min(eig_val) < 0:\n            if verbose:", "        if True:\n            if verbose and np.min(eig_val) < 0:"),
     ("dense-no-symmetrisation", TR, "    Gweights = (Gweights + Gweights.T) / 2\n", ""),
     ("sparse-mirror-absent-minus-zero", TR, "                    Gweights_val.append((weight + weight_sym) / 2)\n                    Gweights_indi.append(max(", "                    Gweights_val.append((weight - weight_sym) / 2)\n                    Gweights_indi.append(max("),
     ("mosek-row-index-minus-zeros", MK, "self.task.putaijlist(nb_cons + np.zeros(a_i.shape, dtype=np.int8), a_i, a_val)\n\n        if track:", "self.task.putaijlist(nb_cons - np.zeros(a_i.shape, dtype=np.int8), a_i, a_val)\n\n        if track:"),
